@@ -93,6 +93,9 @@ def run(chk):
         instance(chk, "odd", "odd", 44, 47, ["R", "NN"], base="N")
     chk.exhaustive = True
     recorded(chk, 3000 if thorough else 400, ORDER)
+    if thorough:   # the composition: registration programs with scripted handlers + request histories on a caching router
+        from . import rux
+        rux.simulate(chk, 40, only={"chain", "registration-panic", "panic"})
     neg_creeps(chk)
 
 
